@@ -311,7 +311,9 @@ type scen struct {
 	swCas   int   // percent: switch away when parked before a CAS
 	stay    int   // percent: stay with the last thread otherwise
 	pl      *pool
-	exhaust []int // preemption plan (exhaustive kind)
+	exhaust []int                       // preemption plan (exhaustive kind)
+	setup   []op                        // run sequentially by a setup handle before the processes start
+	damage  func(path string, H uint32) // then applied to the file (damaged-start scenarios)
 }
 
 func newProg(names []int, nops int, adds int) []op {
@@ -466,6 +468,67 @@ func emptyScen() scen {
 	return sc
 }
 
+// damaged-start scenarios (outside the model: the initial file is NOT well
+// formed).  Only the oracles hang / panic / "a damaged file is not made
+// worse" are evaluated; they exercise the guards of newCounter that the
+// theorem C04_failures_classified shows to be dead code on well-formed files.
+func dmgLimitScen() scen {
+	sc := scen{kind: "dmg-limit", meta: metaOfLen(60), pl: base.clone(), swCas: 50, stay: 50}
+	sc.setup = []op{{isNew: true, name: idShort1}, {k: 5}}
+	sc.damage = func(path string, H uint32) {
+		f, err := os.OpenFile(path, os.O_RDWR, 0)
+		if err != nil {
+			panic(err)
+		}
+		defer f.Close()
+		var b [4]byte
+		binary.LittleEndian.PutUint32(b[:], 40) // a small, non-zero allocation limit
+		if _, err := f.WriteAt(b[:], int64(H)); err != nil {
+			panic(err)
+		}
+	}
+	names := []int{idHot1, idHot2, idHot3, idCold1, idCold2, idShort2, idShort3, idShort4, idOne, idHotMid,
+		sc.pl.add(findName("dl", 9, -1, nil)), sc.pl.add(findName("dm", 12, -1, nil))}
+	var p0, p1 []op
+	for i, n := range names {
+		if i%2 == 0 {
+			p0 = append(p0, op{isNew: true, name: n})
+		} else {
+			p1 = append(p1, op{isNew: true, name: n})
+		}
+	}
+	sc.progs = [][]op{p0, p1}
+	sc.late = []bool{true, true}
+	sc.kills = []int{-1, -1}
+	return sc
+}
+
+func dmgCycleScen() scen {
+	sc := scen{kind: "dmg-cycle", meta: metaOfLen(60), pl: base.clone(), swCas: 50, stay: 50}
+	sc.setup = []op{{isNew: true, name: idHot1}, {k: 3}}
+	sc.damage = func(path string, H uint32) {
+		d, err := os.ReadFile(path)
+		if err != nil {
+			panic(err)
+		}
+		off := le32(d, H+4+4*hotBucket) // the record of idHot1
+		f, err := os.OpenFile(path, os.O_RDWR, 0)
+		if err != nil {
+			panic(err)
+		}
+		defer f.Close()
+		var b [4]byte
+		binary.LittleEndian.PutUint32(b[:], off) // next := itself
+		if _, err := f.WriteAt(b[:], int64(off+12)); err != nil {
+			panic(err)
+		}
+	}
+	sc.progs = [][]op{{{isNew: true, name: idHot2}}, {{isNew: true, name: idHot1}, {k: 1}, {isNew: true, name: idHot3}}}
+	sc.late = []bool{true, true}
+	sc.kills = []int{-1, -1}
+	return sc
+}
+
 // exhaustive: every schedule of two tiny same-bucket programs with at most
 // three preemptions, optionally killing one of them at a given step
 type exhState struct {
@@ -551,6 +614,23 @@ func runScen(sc scen) {
 	}
 	if h0.HdrLen() != H {
 		panic(fmt.Sprintf("hdrLen %d != %d", h0.HdrLen(), H))
+	}
+	if sc.setup != nil {
+		var cell *vatomic.Uint64
+		for _, o := range sc.setup {
+			if o.isNew {
+				c, m1, err := h0.NewCounter(sc.pl.names[o.name])
+				if err != nil || m1 != nil {
+					panic("setup newCounter")
+				}
+				cell = c
+			} else {
+				counter.VerifCellAdd(h0, cell, o.k)
+			}
+		}
+	}
+	if sc.damage != nil {
+		sc.damage(path, H)
 	}
 
 	n := len(sc.progs)
@@ -854,6 +934,8 @@ func main() {
 	thorough := os.Getenv("VERIF_TIER") == "thorough" || n >= 3000
 	runScen(witness4())
 	runScen(emptyScen())
+	runScen(dmgLimitScen())
+	runScen(dmgCycleScen())
 	nexh := n / 4
 	if thorough {
 		nexh = len(exh.plans)
@@ -873,7 +955,7 @@ func main() {
 		}
 		runScen(exhScen(exh.plans[(k*stride+off)%len(exh.plans)]))
 	}
-	for i := 2 + nexh; i < n; i++ {
+	for i := 4 + nexh; i < n; i++ {
 		runScen(randomScen())
 	}
 	out.Close()
